@@ -21,16 +21,13 @@ inductive ByteEnd where
   | stuck
   deriving Repr, Inhabited
 
-/-- NUL is the reader's end-of-input sentinel: the model sees the bytes before the first NUL. -/
-def untilNul : List Nat → List Nat
-  | [] => []
-  | b :: bs => if b = 0 then [] else b :: untilNul bs
-
-/-- See the discussion in DESIGN.md (C05): a run that reaches the end of the valid runes makes the
-    Go loop call `Next` once more, which reports the invalid byte instead of evaluating the run. -/
+/-- `lexer.New` + `NextToken` over the bytes of a specification (the reader of emerge's own, which holds the whole source):
+    the source is terminated with a newline; the bytes are decoded as UTF-8 up to the first byte sequence that is not a
+    character; every token of the valid part is delivered (a zero byte is a character like any other - no token starts with
+    it, so it is a lexical error at its position); then the end of the input, the lexical error of the last run, or the
+    position of the bytes that are not a character is reported. -/
 def scanBytes (S : Scanner.Spec) (bytes : List Nat) : List Token × ByteEnd :=
-  -- `lexer.New` terminates the source with a newline (see the fix: commit in /repo)
-  let bs := untilNul (bytes ++ [10])
+  let bs := bytes ++ [10]
   let d := Utf8.decode bs.length bs
   let rs := d.1
   let sg := segments S (rs.length + 1) Pos.start rs
@@ -42,14 +39,11 @@ def scanBytes (S : Scanner.Spec) (bytes : List Nat) : List Token × ByteEnd :=
       | .lexErr p t => .lexErr p t
       | .stuck => .stuck)
   | .invalid =>
-    let endPos := advPosList Pos.start rs
-    match sg.2 with
-    | .eof => ((sg.1.dropLast).filterMap (tokenOf S), .badInput endPos)
-    | .lexErr p t =>
-      let used := (sg.1.map (·.text.length)).foldl (· + ·) 0 + t.length
-      if used = rs.length then (sg.1.filterMap (tokenOf S), .badInput endPos)
-      else (sg.1.filterMap (tokenOf S), .lexErr p t)
-    | .stuck => (sg.1.filterMap (tokenOf S), .stuck)
+    (sg.1.filterMap (tokenOf S),
+      match sg.2 with
+      | .eof => .badInput (advPosList Pos.start rs)
+      | .lexErr p t => .lexErr p t
+      | .stuck => .stuck)
 
 def fmt2 (f : String) (a b : String) : String :=
   match f.splitOn "%s" with
